@@ -125,7 +125,7 @@ class NumericalDerivative(Operator):
 
         dx_norm = dx.norm()
         if dx_norm == 0:
-            return 0
+            return self.range.zero()
 
         scaled_dx = dx * (self.step / dx_norm)
 
